@@ -213,6 +213,21 @@ theorem C14_fixed_witness :
       s.seqOk 1 = true ∧ s.started = [0, 1] ∧ s.ph 0 = .finished .raise ∧ s.ph 1 = .running :=
   ⟨rfl, _, rfl, rfl, rfl, rfl, rfl⟩
 
+/-- the fixed gate WITHOUT the timing assumption -/
+def untimelyGate : Config := { timely := false, old := false }
+
+/-- **`Timely` cannot be dropped (known finding C14-teardown-exceeds-grace).**  The channel of a body is closed before the
+main thread has left `executetask` (the body's namespace is torn down, then the `finally` sets `complete`), and the
+receiver waits for `complete` for one second only.  If that epilogue takes longer than the second — a finaliser in the
+body's namespace that runs for 1.5 s is enough on the real worker — a `remote_exec` issued after the previous channel
+closed is refused with the deadlock text although nothing is running: exec 1 is submitted sequentially (`seqOk 1`), the
+main thread stands between `close` and `set`, the time-out fires. -/
+theorem C14_untimely_counterexample :
+    ∃ s, runSteps untimelyGate init
+        [.submit, .rTake, .rWake, .rClear, .rSpawn, .mStart, .mFinish .ret, .mClose, .observe 0, .submit, .rTake, .rTimeout]
+        = some s ∧ s.seqOk 1 = true ∧ s.ph 1 = .rejected ∧ s.ph 0 = .closed .ret ∧ s.m = .closedSt 0 .ret :=
+  ⟨_, rfl, rfl, rfl, rfl, rfl⟩
+
 /-- non-vacuity of `C14_overlap_rejected`: exec 1 submitted while body 0 runs -/
 example : ∃ s, runSteps newGate init [.submit, .rTake, .rWake, .rClear, .rSpawn, .mStart, .submit, .rTake] = some s ∧
     s.r = .waiting 1 ∧ s.m = .running 0 ∧ s.seqOk 1 = false ∧ (step newGate s .rTimeout).isSome = true :=
